@@ -442,7 +442,12 @@ pub fn generate(rng: &mut Prng, thorough: bool) -> (Config, Vec<SOp>) {
         ops.push(op);
     }
     let flips: Vec<u32> = (0..rng.range(0, if thorough { 60 } else { 24 })).map(|_| rng.next_u64() as u32).collect();
-    (Config { route, flips, truncations: rng.chance(1, 3) }, ops)
+    let truncations = rng.chance(1, 3);
+    // a few copies carry a long string value (5 kB / 70 kB): length prefixes beyond one and two bytes
+    if !truncations && nn > 0 && rng.chance(1, 25) {
+        ops.push(SOp::SetNodeProp(rng.usize(nn), rng.below(3) as u8, SV::BigStr(*rng.pick(&[5_000u32, 70_000]), b'a' + (u % 26) as u8)));
+    }
+    (Config { route, flips, truncations }, ops)
 }
 
 fn run_guarded(cfg: &Config, ops: &[SOp], tag: &str) -> ExecResult {
